@@ -74,8 +74,10 @@ def run(plan, prop):
         params = [np.asarray(p + x, np.float32) for p, x in zip(params, ups)]
     elif kind == 'CHECKPOINT':
       t = view.clock(named_leaves(state))
+      import copy as _copy
       volatile[t] = (world.to_bytes(state), set(poisoned),
-                     [np.array(p) for p in params])
+                     [np.array(p) for p in params],
+                     _copy.deepcopy(ctx.__dict__.get('hist', {})))
       if op.get('sync', True):
         durable.update(volatile)
         volatile = {}
@@ -87,7 +89,9 @@ def run(plan, prop):
         continue
       keys = sorted(durable)
       k = keys[int(op.get('which', -1)) % len(keys)]
-      data, pz, pars = durable[k]
+      data, pz, pars, hist = durable[k]
+      import copy as _copy
+      ctx.hist = _copy.deepcopy(hist)
       old_mode, old_D = world.mode, world.D
       del world, state
       if kind == 'RESCALE':
